@@ -178,6 +178,115 @@ def entity_part(ctx, g):
                % (len(dec), unk), 'correspondence', mism == 0)
 
 
+def tree_mutator(r, JUNK, KEYS):
+    """structural mutation of a JSON tree (S-expression form)"""
+    def nodes(t, path=()):
+        yield path, t
+        if not isinstance(t, str) and t and t[0] == 'arr':
+            for i, x in enumerate(t[1:]):
+                yield from nodes(x, path + (i + 1,))
+        elif not isinstance(t, str) and t and t[0] == 'obj':
+            for i, kv in enumerate(t[1:]):
+                yield from nodes(kv[1], path + (i + 1, 1))
+
+    def replace(t, path, f):
+        if not path:
+            return f(t)
+        t = list(t)
+        t[path[0]] = replace(t[path[0]], path[1:], f)
+        return t
+
+    def mutate(t):
+        ns = list(nodes(t))
+        path, sub = r.choice(ns)
+        k = r.randrange(8)
+        if k == 0: return replace(t, path, lambda x: r.choice(JUNK))
+        objs = [(p_, x) for p_, x in ns if not isinstance(x, str) and x and x[0] == 'obj' and len(x) > 1]
+        if not objs: return replace(t, path, lambda x: ['null'])
+        p_, o = r.choice(objs)
+        i = r.randrange(1, len(o))
+        if k == 1: return replace(t, p_, lambda x: x[:i] + x[i + 1:])
+        if k == 2: return replace(t, p_, lambda x: x[:i] + [[x[i][0], ['null']]] + x[i + 1:])
+        if k == 3: return replace(t, p_, lambda x: x + [[x[i][0], r.choice(JUNK)]])
+        if k == 4: return replace(t, p_, lambda x: [x[0]] + r.sample(x[1:], len(x) - 1))
+        if k == 5: return replace(t, p_, lambda x: x + [[S(r.choice(KEYS)), r.choice(JUNK)]])
+        if k == 6: return replace(t, p_, lambda x: x[:i] + [[S(r.choice(KEYS)), x[i][1]]] + x[i + 1:])
+        return replace(t, path, lambda x: ['arr', x, x])
+    return mutate
+
+
+def codec_pair(ctx, what, go_name, model_name, objs, enc_kind, dec_kind, mutate, nmut, project=None):
+    """encoder correspondence on objs, decoder correspondence on the encoder outputs and their mutants"""
+    enc = [case('%se%d' % (enc_kind[0], i), enc_kind, o) for i, o in enumerate(objs)]
+    go_e, mo_e, m1 = lib.differential(ctx, enc, enc_kind, project=project,
+                                      describe='JSON encoding of a %s: Go and the Coq model (Impl/RequestJson.v) disagree' % what)
+    ctx.oblige('correspondence: %s = RequestJson.%s as JSON trees (%d objects)' % (go_name[0], model_name[0], len(enc)), 'correspondence', not m1)
+    trees = [sx.parse(go_e[lib.case_id(c)])[1] for c in enc if go_e.get(lib.case_id(c), '').startswith('(tree ')]
+    dec_trees = list(trees)
+    for t in trees:
+        for _ in range(nmut):
+            dec_trees.append(mutate(t))
+    dec = [case('%sd%d' % (dec_kind[0], i), dec_kind, t) for i, t in enumerate(dec_trees)]
+    go_d = lib.run_go(dec, dec_kind, ctx.workdir)
+    mo_d = lib.run_model(dec, dec_kind, ctx.workdir)
+    mism, unk, acc = 0, 0, 0
+    for c in dec:
+        cid = lib.case_id(c)
+        g_, m_ = lib.canon_str(go_d.get(cid, '(missing)')), lib.canon_str(mo_d.get(cid, '(missing)'))
+        if m_ == '(unmodelled)':
+            unk += 1
+            continue
+        acc += g_.startswith('(ok')
+        if g_ != m_:
+            if two_wrapping_members(c) and sorted(g_) == sorted(m_):
+                continue
+            mism += 1
+            if mism <= 6:
+                ctx.violation('%s: Go and the Coq model (Impl/RequestJson.v %s) disagree: go=%s model=%s' % (go_name[1], model_name[1], g_[:400], m_[:400]),
+                              dict(kind='case', case=c, go=g_, model=m_))
+    ctx.extra[dec_kind] = dict(cases=len(dec), accepted=acc, unmodelled=unk)
+    ctx.oblige('correspondence: %s = RequestJson.%s on %d JSON trees (encoder outputs and structural mutants; %d outside the modelled domain)'
+               % (go_name[1], model_name[1], len(dec), unk), 'correspondence', mism == 0)
+
+
+def request_part(ctx, g):
+    """json.Marshal / Unmarshal of Request, Diagnostic and Decision = Impl/RequestJson.v on JSON trees"""
+    r = ctx.rng
+    quick = ctx.tier == 'quick'
+    uid_t = lambda t, i: ['obj', [S('type'), ['str', S(t)]], [S('id'), ['str', S(i)]]]
+    JUNK = [['null'], ['num', '1'], ['num', '-7'], ['num', '9223372036854775807'], ['num', '9223372036854775808'], ['num', '-9223372036854775809'], ['numother'], ['str', S('x')], ['str', S('allow')],
+            ['arr'], ['obj'], ['bool', '1'], uid_t('T', 'i'), ['obj', [S('__entity'), uid_t('T', 'i')]], ['obj', [S('__entity'), ['null']], [S('type'), ['str', S('T')]], [S('id'), ['str', S('i')]]],
+            ['obj', [S('type'), ['null']], [S('id'), ['str', S('i')]]], ['arr', ['null'], ['obj']], ['obj', [S('__extn'), ['obj', [S('fn'), ['str', S('decimal')]], [S('arg'), ['str', S('1.5')]]]]]]
+    KEYS = ['principal', 'action', 'resource', 'context', 'type', 'id', '__entity', '__extn', 'reasons', 'errors', 'policy', 'position', 'message', 'filename', 'offset', 'line', 'column',
+            'zz', 'Principal', 'CONTEXT', 'Line', 'Reasons', 'Policy']
+    mutate = tree_mutator(r, JUNK, KEYS)
+    reqs = []
+    for i in range(400 if quick else 15000):
+        q = g.request()
+        if i % 4 == 0:
+            q = ['req', r.choice([gen.vent('Doc', 'a"b'), gen.vent('', ''), gen.vent('A::B', 'c\n'), gen.vent('A', '\u00e9')]), q[2], q[3], q[4]]
+        if not lib.has_4in6(sx.dump(q)):
+            reqs.append(q)
+    codec_pair(ctx, 'request', ('json.Marshal(Request)', 'json.Unmarshal into Request'), ('enc_request', 'dec_request'), reqs, 'rjsonenc', 'rjsondec', mutate,
+               3 if quick else 8, project=proj_tree)
+    IDS = ['policy0', 'p', '', 'a"b', 'bell\x07', '\u00e9', 'x' * 40]
+    FILES = ['', 'policies.cedar', 'dir/a b.cedar', '"']
+    INTS = [0, 1, 2, 17, 4096, -1, 2**31, 2**63 - 1, -2**63]
+    MSGS = ['', 'type error: expected bool, got long', 'attribute `a"b` does not exist', '\n']
+
+    def pos():
+        return [S(r.choice(FILES)), str(r.choice(INTS)), str(r.choice(INTS)), str(r.choice(INTS))]
+    diags = []
+    for i in range(400 if quick else 15000):
+        rs = [['r', S(r.choice(IDS))] + pos() for _ in range(r.choice([0, 0, 1, 2, 3]))]
+        es = [['e', S(r.choice(IDS))] + pos() + [S(r.choice(MSGS))] for _ in range(r.choice([0, 0, 1, 2]))]
+        diags.append(['diag', ['reasons'] + rs, ['errors'] + es])
+    codec_pair(ctx, 'diagnostic', ('json.Marshal(Diagnostic)', 'json.Unmarshal into Diagnostic'), ('enc_diagnostic', 'dec_diagnostic'), diags, 'djsonenc', 'djsondec', mutate,
+               3 if quick else 8)
+    dcs = [case('dc%d' % i, 'decjson', t) for i, t in enumerate(JUNK + [['str', S('deny')], ['str', S('Allow')], ['str', S('allow ')], ['str', S('')]])]
+    lib.differential(ctx, dcs, 'decjson', describe='Decision.UnmarshalJSON: Go and the Coq model (Impl/RequestJson.v dec_decision) disagree')
+
+
 def run(ctx):
     b = lib.standard_build(ctx)
     if not lib.require_builds(ctx, b):
@@ -254,6 +363,7 @@ def run(ctx):
     ctx.oblige('correspondence: types.UnmarshalJSON = ValueJson.decode_value on %d JSON trees (encoder outputs, alternative spellings, malformed escapes)' % len(dec_cases),
                'correspondence', not m2)
     entity_part(ctx, g)
+    request_part(ctx, g)
     go = lib.run_go(cases, 'json', ctx.workdir)
     bad = 0
     for c in cases:
